@@ -151,18 +151,23 @@ func c05ParseFilter(s string) Filter {
 	}
 	el := c05Dotted(s)
 	switch strings.Split(s, ".")[0] {
-	case "allow":
-		ks := []Key{}
+	case "allow", "deny":
+		// the key slice has spare capacity and is overwritten after the constructor returned
+		ks := make([]Key, 0, len(el)+2)
 		for _, e := range el {
 			ks = append(ks, Key(c05Unhex(e)))
 		}
-		return NewAllowKeysFilter(ks...)
-	case "deny":
-		ks := []Key{}
-		for _, e := range el {
-			ks = append(ks, Key(c05Unhex(e)))
+		var f Filter
+		if strings.HasPrefix(s, "allow") {
+			f = NewAllowKeysFilter(ks...)
+		} else {
+			f = NewDenyKeysFilter(ks...)
 		}
-		return NewDenyKeysFilter(ks...)
+		ks = ks[:cap(ks)]
+		for i := range ks {
+			ks[i] = "zz.scribbled"
+		}
+		return f
 	case "vt":
 		ts := map[Type]bool{}
 		for _, e := range el {
@@ -594,14 +599,79 @@ func c05MkSet(base string, kvs []KeyValue, f int) Set {
 	if base == "zero" && len(kvs) == 0 {
 		return Set{}
 	}
-	return NewSet(c05BuildAll(kvs, f)...)
+	return c05NewSet(c05BuildAll(kvs, f))
+}
+
+// Shared argument table. Every slice handed to the API is a sub-slice of this one table, WITH
+// SPARE CAPACITY (three sentinel slots that belong to the table, not to the argument). After the
+// call the argument's elements are overwritten and the table is re-used by the next argument; the
+// results are read only after that (and, in seq lines, again after every later call). An
+// implementation that keeps the caller's slice, appends into its spare capacity, or hands out
+// internal storage shows up as a changed late reading or a damaged sentinel (BADCAP).
+type c05Arena struct {
+	tab  []KeyValue
+	used int
+}
+
+var c05Tab = &c05Arena{tab: make([]KeyValue, 2048)}
+var c05Junk = KeyValue{Key: "zz.scribbled", Value: StringValue("junk")}
+var c05Sentinel = KeyValue{Key: "zz.sentinel", Value: Int64Value(-7)}
+var c05BadCap = false
+
+func (a *c05Arena) slice(kvs []KeyValue) []KeyValue {
+	n := len(kvs)
+	if a.used+n+3 > len(a.tab) {
+		a.tab, a.used = make([]KeyValue, 2048+n), 0
+	}
+	s := a.tab[a.used : a.used+n : a.used+n+3]
+	copy(s, kvs)
+	for i := n; i < n+3; i++ {
+		a.tab[a.used+i] = c05Sentinel
+	}
+	a.used += n + 3
+	return s
+}
+
+// the three slots behind an argument slice must still hold the sentinel
+func c05CapCheck(arg []KeyValue) {
+	for _, kv := range arg[len(arg):cap(arg)] {
+		if kv != c05Sentinel {
+			c05BadCap = true
+		}
+	}
+}
+
+func c05Scribble(sl []KeyValue) {
+	sl = sl[:cap(sl)]
+	for i := range sl {
+		sl[i] = c05Junk
+	}
+}
+
+// NewSet(arg...) on a table-backed argument that is overwritten right after the call
+func c05NewSet(kvs []KeyValue) Set {
+	arg := c05Tab.slice(kvs)
+	s := NewSet(arg...)
+	c05CapCheck(arg)
+	c05Scribble(arg)
+	return s
 }
 
 type c05Emitter struct{ out *vOut }
 
+// line: one trace line; a damaged sentinel makes it unparsable on purpose
+func (e c05Emitter) line(format string, args ...interface{}) {
+	c05Tab.used = 0
+	if c05BadCap {
+		c05BadCap = false
+		format += " BADCAP"
+	}
+	e.out.Line(format, args...)
+}
+
 func (e c05Emitter) newset(gen string, in []KeyValue, ftok string) {
 	base, fa, _ := c05Fam(gen)
-	work := c05BuildAll(in, fa)
+	work := c05Tab.slice(c05BuildAll(in, fa))
 	var s Set
 	var dropped []KeyValue
 	f := c05ParseFilter(ftok)
@@ -610,23 +680,41 @@ func (e c05Emitter) newset(gen string, in []KeyValue, ftok string) {
 	} else {
 		s, dropped = NewSetWithFiltered(work, f)
 	}
+	c05CapCheck(work)
+	// the dropped slice and the caller's slice are read now (dropped may alias the caller's slice:
+	// documented), then both are overwritten, a later call is made, and only then is the Set read
+	d, w := c05KVs(dropped), c05KVs(work)
+	c05Scribble(work)
+	if len(dropped) > 0 {
+		c05Scribble(dropped[:len(dropped):len(dropped)])
+	}
+	_ = c05NewSet([]KeyValue{c05Junk, c05Sentinel})
 	sl := s.ToSlice()
 	if s.Len() != len(sl) {
 		sl = append(sl, KeyValue{Key: "BADLEN"})
 	}
-	e.out.Line("newset %s %s %s => %s %s %s", gen, c05KVs(in), ftok, c05KVs(sl), c05KVs(dropped), c05KVs(work))
+	e.line("newset %s %s %s => %s %s %s", gen, c05KVs(in), ftok, c05KVs(sl), d, w)
 }
 
 func (e c05Emitter) filter(gen string, in []KeyValue, ftok string) {
 	_, fa, _ := c05Fam(gen)
-	s := NewSet(c05BuildAll(in, fa)...)
+	s := c05NewSet(c05BuildAll(in, fa))
 	kept, dropped := s.Filter(c05ParseFilter(ftok))
-	e.out.Line("filter %s %s %s => %s %s %s", gen, c05KVs(in), ftok, c05KVs(kept.ToSlice()), c05KVs(dropped), c05KVs(s.ToSlice()))
+	d := c05KVs(dropped)
+	c05Scribble(dropped)
+	sl := s.ToSlice()
+	first := c05KVs(sl)
+	c05Scribble(sl)
+	_, _ = kept.Filter(c05ParseFilter(ftok))
+	if now := c05KVs(s.ToSlice()); now != first {
+		first = now + ",UNSTABLE"
+	}
+	e.line("filter %s %s %s => %s %s %s", gen, c05KVs(in), ftok, c05KVs(kept.ToSlice()), d, first)
 }
 
 func (e c05Emitter) value(gen string, in []KeyValue, k string) {
 	_, fa, _ := c05Fam(gen)
-	s := NewSet(c05BuildAll(in, fa)...)
+	s := c05NewSet(c05BuildAll(in, fa))
 	v, ok := s.Value(Key(k))
 	res := "-"
 	if ok {
@@ -635,13 +723,13 @@ func (e c05Emitter) value(gen string, in []KeyValue, k string) {
 	if s.HasValue(Key(k)) != ok {
 		res = "BADHAS"
 	}
-	e.out.Line("value %s %s x%s => %s", gen, c05KVs(in), c05Hex(k), res)
+	e.line("value %s %s x%s => %s", gen, c05KVs(in), c05Hex(k), res)
 }
 
 func (e c05Emitter) equal(gen string, a, b []KeyValue) {
 	base, fa, fb := c05Fam(gen)
 	sa, sb := c05MkSet(base, a, fa), c05MkSet(base, b, fb)
-	e.out.Line("equal %s %s %s => %d %d %d", gen, c05KVs(a), c05KVs(b), c05B(sa.Equals(&sb)), c05B(sb.Equals(&sa)), c05B(sa.Equals(&sa)))
+	e.line("equal %s %s %s => %d %d %d", gen, c05KVs(a), c05KVs(b), c05B(sa.Equals(&sb)), c05B(sb.Equals(&sa)), c05B(sa.Equals(&sa)))
 }
 
 func (e c05Emitter) mapkey(gen string, a, b []KeyValue) {
@@ -651,7 +739,7 @@ func (e c05Emitter) mapkey(gen string, a, b []KeyValue) {
 	m[sa.Equivalent()] = 1
 	_, found := m[sb.Equivalent()]
 	m[sb.Equivalent()] = 2
-	e.out.Line("mapkey %s %s %s => %d %d", gen, c05KVs(a), c05KVs(b), c05B(found), len(m))
+	e.line("mapkey %s %s %s => %d %d", gen, c05KVs(a), c05KVs(b), c05B(found), len(m))
 }
 
 func (e c05Emitter) merge(gen string, a, b []KeyValue) {
@@ -662,17 +750,82 @@ func (e c05Emitter) merge(gen string, a, b []KeyValue) {
 	for it.Next() {
 		got = append(got, it.Attribute())
 	}
-	e.out.Line("merge %s %s %s => %s", gen, c05KVs(a), c05KVs(b), c05KVs(got))
+	e.line("merge %s %s %s => %s", gen, c05KVs(a), c05KVs(b), c05KVs(got))
 }
 
 func (e c05Emitter) encode(gen string, in []KeyValue) {
 	_, fa, _ := c05Fam(gen)
-	s := NewSet(c05BuildAll(in, fa)...)
+	s := c05NewSet(c05BuildAll(in, fa))
 	em := "E"
 	for _, kv := range s.ToSlice() {
 		em += "." + c05Hex(kv.Value.Emit())
 	}
-	e.out.Line("encode %s %s %s => x%s", gen, c05KVs(in), em, c05Hex(s.Encoded(DefaultEncoder())))
+	e.line("encode %s %s %s => x%s", gen, c05KVs(in), em, c05Hex(s.Encoded(DefaultEncoder())))
+}
+
+// iter: the Iterator API step by step (Next / Attribute / Label / IndexedAttribute / Len / ToSlice)
+func (e c05Emitter) iter(gen string, in []KeyValue, k int) {
+	_, fa, _ := c05Fam(gen)
+	s := c05NewSet(c05BuildAll(in, fa))
+	it := s.Iter()
+	var got []KeyValue
+	idxOK := 1
+	for pos := 0; it.Next(); pos++ {
+		i, kv := it.IndexedAttribute()
+		i2, kv2 := it.IndexedLabel()
+		// compared through their rendering: Go == on a KeyValue holding a NaN in a FLOAT64SLICE is false (F9)
+		one := func(x KeyValue) string { return c05KVs([]KeyValue{x}) }
+		if i != pos || i2 != pos || one(kv) != one(it.Attribute()) || one(kv) != one(it.Label()) || one(kv) != one(kv2) {
+			idxOK = 0
+		}
+		got = append(got, kv)
+		if pos > len(in)+2 {
+			break
+		}
+	}
+	after := it.Attribute()
+	extra := it.Next()
+	it2 := s.Iter()
+	for j := 0; j < k; j++ {
+		it2.Next()
+	}
+	sl := it2.ToSlice()
+	shown := c05KVs(sl)
+	c05Scribble(sl)
+	nxt := it2.Next()
+	e.line("iter %s %s %d => %s %d %d %s %d %s %d", gen, c05KVs(in), k, c05KVs(got), idxOK, it.Len(),
+		c05KVs([]KeyValue{after}), c05B(extra), shown, c05B(nxt))
+}
+
+// nilset: every accessor on a nil *Set, the zero Set{}, NewSet() and EmptySet(); which = nil | zero | new | empty
+func (e c05Emitter) nilset(which, other string, k string, idx int) {
+	mk := func(w string) *Set {
+		switch w {
+		case "nil":
+			return nil
+		case "zero":
+			return &Set{}
+		case "new":
+			s := NewSet()
+			return &s
+		case "filtered":
+			s, _ := NewSetWithFiltered(c05Tab.slice([]KeyValue{c05Junk}), func(KeyValue) bool { return false })
+			return &s
+		}
+		return EmptySet()
+	}
+	l, o := mk(which), mk(other)
+	_, okv := l.Value(Key(k))
+	_, okg := l.Get(idx)
+	it := l.Iter()
+	n := 0
+	for it.Next() {
+		n++
+	}
+	m := map[Distinct]bool{l.Equivalent(): true}
+	e.line("nilset fix %s %s x%s %d => %d %d %d %d %s %d %d %d %d x%s", which, other, c05Hex(k), idx,
+		l.Len(), c05B(okv), c05B(l.HasValue(Key(k))), c05B(okg), c05KVs(l.ToSlice()), n,
+		c05B(l.Equals(o)), c05B(o.Equals(l)), c05B(m[o.Equivalent()]), c05Hex(l.Encoded(DefaultEncoder())))
 }
 
 // ---- scripts with temporal re-observation ------------------------------------------------------
@@ -743,7 +896,7 @@ func (e c05Emitter) seq(gen string, ops []c05SeqOp) {
 		in = append(in, op.String())
 		switch op.kind {
 		case "set":
-			s := NewSet(c05BuildAll(op.kvs, fa)...)
+			s := c05NewSet(c05BuildAll(op.kvs, fa)) // table-backed argument, overwritten after the call
 			sets = append(sets, &s)
 			sl := s.ToSlice()
 			first := c05KVs(sl)
@@ -752,15 +905,24 @@ func (e c05Emitter) seq(gen string, ops []c05SeqOp) {
 				if now := c05KVs(sl); now != first {
 					return now // the slice ToSlice handed out has changed
 				}
+				c05Scribble(sl) // it is the caller's: overwriting it must not reach the Set
 				return c05KVs(s.ToSlice())
 			})
 		case "newset":
-			work := c05BuildAll(op.kvs, fa)
+			work := c05Tab.slice(c05BuildAll(op.kvs, fa))
 			s, dropped := NewSetWithFiltered(work, c05ParseFilter(op.ftok))
+			c05CapCheck(work)
 			sets = append(sets, &s)
 			atReturn = append(atReturn, c05KVs(s.ToSlice())+" "+c05KVs(dropped)+" "+c05KVs(work))
 			redump = append(redump, func() string {
-				return c05KVs(s.ToSlice()) + " " + c05KVs(dropped) + " " + c05KVs(work)
+				// slices first (dropped may alias the caller's slice: documented), then both are
+				// overwritten, then the Set is read
+				d, w := c05KVs(dropped), c05KVs(work)
+				c05Scribble(work)
+				if len(dropped) > 0 {
+					c05Scribble(dropped[:len(dropped):len(dropped)])
+				}
+				return c05KVs(s.ToSlice()) + " " + d + " " + w
 			})
 		case "filter":
 			src := sets[op.i]
@@ -768,7 +930,9 @@ func (e c05Emitter) seq(gen string, ops []c05SeqOp) {
 			sets = append(sets, &kept)
 			atReturn = append(atReturn, c05KVs(kept.ToSlice())+" "+c05KVs(dropped)+" "+c05KVs(src.ToSlice()))
 			redump = append(redump, func() string {
-				return c05KVs(kept.ToSlice()) + " " + c05KVs(dropped) + " " + c05KVs(src.ToSlice())
+				d := c05KVs(dropped)
+				c05Scribble(dropped)
+				return c05KVs(kept.ToSlice()) + " " + d + " " + c05KVs(src.ToSlice())
 			})
 		case "merge":
 			it := NewMergeIterator(sets[op.i], sets[op.j])
@@ -794,7 +958,7 @@ func (e c05Emitter) seq(gen string, ops []c05SeqOp) {
 	for i, f := range redump {
 		atEnd[i] = f()
 	}
-	e.out.Line("seq %s %s => %s ;; %s", gen, strings.Join(in, " | "), strings.Join(atReturn, " | "), strings.Join(atEnd, " | "))
+	e.line("seq %s %s => %s ;; %s", gen, strings.Join(in, " | "), strings.Join(atReturn, " | "), strings.Join(atEnd, " | "))
 }
 
 // reference contents (only to steer the generator towards the three code paths of Set.Filter)
@@ -903,6 +1067,14 @@ func c05GenSeq(r *vRand) []c05SeqOp {
 func TestVerifC05Set(t *testing.T) {
 	out := vOpen(t)
 	defer out.Close()
+	// a panic of the code under test is an observation: it becomes an (unparsable) trace line, so the
+	// run cannot pass for a truncated trace
+	defer func() {
+		if p := recover(); p != nil {
+			out.Line("panic harness => %s", strings.ReplaceAll(fmt.Sprint(p), " ", "_"))
+			t.Errorf("panic: %v", p)
+		}
+	}()
 	e := c05Emitter{out}
 	if rp := vReplayLines(); rp != nil {
 		for _, f := range rp {
@@ -923,12 +1095,31 @@ func TestVerifC05Set(t *testing.T) {
 				e.encode(f[1], c05ParseKVs(f[2]))
 			case "seq":
 				e.seq(f[1], c05ParseSeq(f[2:]))
+			case "iter":
+				k, _ := strconv.Atoi(f[3])
+				e.iter(f[1], c05ParseKVs(f[2]), k)
+			case "nilset":
+				idx, _ := strconv.Atoi(f[5])
+				e.nilset(f[2], f[3], c05Unhex(strings.TrimPrefix(f[4], "x")), idx)
 			}
 		}
 		return
 	}
 	r := &vRand{s: vSeed()}
 	n := vN(20000)
+	{
+		// nil *Set, zero Set{}, NewSet(), EmptySet(), a Set whose every attribute was filtered out: every accessor, all pairs
+		kinds := []string{"nil", "zero", "new", "empty", "filtered"}
+		for _, w := range kinds {
+			for _, o := range kinds {
+				for _, k := range []string{"", "a"} {
+					for _, idx := range []int{-1, 0, 1} {
+						e.nilset(w, o, k, idx)
+					}
+				}
+			}
+		}
+	}
 	{
 		// constructor diversity, exhaustively: one value of every type (and every empty slice) built
 		// through every pair of constructor families must give Equal Sets / one map key
@@ -1006,7 +1197,14 @@ func TestVerifC05Set(t *testing.T) {
 			}
 			continue
 		}
-		switch r.Intn(19) {
+		switch r.Intn(20) {
+		case 19:
+			in, _ := c05GenSlice(r)
+			k := r.Intn(4)
+			if r.Intn(3) == 0 {
+				k = len(in) + r.Intn(3)
+			}
+			e.iter(c05Tag(r, "rnd", false), in, k)
 		case 0, 1, 2, 3:
 			in, pool := c05GenSlice(r)
 			ft := c05GenFilter(r, pool)
